@@ -314,8 +314,9 @@ func (p *Policy) UnmarshalJSON(b []byte) error {
 	default:
 		return fmt.Errorf("unknown effect: %v", j.Effect)
 	}
-	for k, v := range j.Annotations {
-		p.unwrap().Annotate(types.Ident(k), types.String(v))
+	// Go map order is random: add the annotations in key order so that the same JSON always decodes to the same policy.
+	for _, k := range slices.Sorted(maps.Keys(j.Annotations)) {
+		p.unwrap().Annotate(types.Ident(k), types.String(j.Annotations[k]))
 	}
 	var err error
 	p.Principal, err = j.Principal.ToPrincipalResourceNode()
